@@ -64,8 +64,8 @@ func equalVals(v0, v1 any) (eq bool) {
 		a, ok := v1.(string)
 		eq = v0 == a && ok
 	case time.Time:
-		tm, _ := v1.(time.Time)
-		eq = tm.Equal(t0)
+		tm, ok := v1.(time.Time)
+		eq = ok && tm.Equal(t0)
 	case []any:
 		if t1, ok := v1.([]any); ok && len(t0) == len(t1) {
 			eq = true
